@@ -180,22 +180,7 @@ func runC06(c *Ctx) {
 		// the silent skip: every `continue`/fallthrough without send on the error branch must be guarded by errors.Is(err, ErrNotExists)
 		checkSilentSkipOnlyNotExists(c, b, "reader-requires-descriptor.skip-only-not-exists")
 	}
-	// downloadBundleDescriptor: consult the descriptor before any success return
-	{
-		f := p.Func("pkg/core.downloadBundleDescriptor")
-		b := p.BodyOf(f)
-		consult := func(bd *Body, call *ast.CallExpr) bool {
-			id := calleeID(bd.Info(), call)
-			if id != "pkg/storage.Store.Get" && id != "pkg/storage.Store.Has" {
-				return false
-			}
-			return len(call.Args) > 1 && resolveKeyKind(bd.Fn, call.Args[1], 0) == "bundle-descriptor"
-		}
-		bad, nS := b.mustPassBeforeSuccess(consult)
-		c.check(len(bad) == 0 && nS > 0, "reader-requires-descriptor.download", f.ID, p.Pos(f.Decl.Pos()),
-			"every success return ("+itoa(nS)+") is preceded by a Get/Has of the bundle descriptor key",
-			"downloadBundleDescriptor can return a bundle without consulting its descriptor: index files left by an interrupted upload are reported as a bundle")
-	}
+	checkDescriptorConsulted(c, "reader-requires-descriptor.download")
 	// GetLatestBundle
 	{
 		f := p.Func("pkg/core.GetLatestBundle")
@@ -314,4 +299,23 @@ func condNilnessAny(info *types.Info, cond ast.Expr) bool {
 		return false
 	}
 	return (isNil(info, be.X) || isNil(info, be.Y)) && be.Op.String() == "!="
+}
+
+// checkDescriptorConsulted (C06, C07): downloadBundleDescriptor consults the descriptor object (Get or Has of its key)
+// before any success return: a bundle whose descriptor is missing is never reported, also in "minimal" mode.
+func checkDescriptorConsulted(c *Ctx, rule string) {
+	p := c.P
+	f := p.Func("pkg/core.downloadBundleDescriptor")
+	b := p.BodyOf(f)
+	consult := func(bd *Body, call *ast.CallExpr) bool {
+		id := calleeID(bd.Info(), call)
+		if id != "pkg/storage.Store.Get" && id != "pkg/storage.Store.Has" {
+			return false
+		}
+		return len(call.Args) > 1 && resolveKeyKind(bd.Fn, call.Args[1], 0) == "bundle-descriptor"
+	}
+	bad, nS := b.mustPassBeforeSuccess(consult)
+	c.check(len(bad) == 0 && nS > 0, rule, f.ID, p.Pos(f.Decl.Pos()),
+		"every success return ("+itoa(nS)+") is preceded by a Get/Has of the bundle descriptor key",
+		"downloadBundleDescriptor can return a bundle without consulting its descriptor: index files left by an interrupted upload are reported as a bundle")
 }
